@@ -186,7 +186,26 @@ def observe(ctx, APK, raw, pairs, model, order, witness, real=None):
     except Exception as e:
         report("duplicate-flag-raises", "has_duplicate_apk_signature_ids() raises", {"exc": exc_str(e)})
     try:
-        a = APK(raw, raw=True)
+        if len(raw) % 11 == 0:
+            # the object is built from a PATH; afterwards the file is replaced by another archive (an unsigned one) before the first signing query:
+            # the answers are those of the file the object was built from
+            import os
+            import tempfile
+            fd, path = tempfile.mkstemp(suffix=".apk", prefix="vf_c33_")
+            try:
+                with os.fdopen(fd, "wb") as f:
+                    f.write(raw)
+                a = APK(path)
+                with open(path, "wb") as f:
+                    f.write(apkw.build_zip([apkw.Entry("AndroidManifest.xml", apkw.manifest_blob("sdk9"), apkw.DEFLATED)]))
+                for n in SCHEMES:
+                    getattr(a, "is_signed_" + n)()      # first signing query while the replaced file is still there
+            finally:
+                os.unlink(path)
+            ctx.count("objects_built_from_a_path_whose_file_was_replaced_afterwards")
+            witness = dict(witness, history="APK(path); the file was then replaced by an unsigned archive; queries followed")
+        else:
+            a = APK(raw, raw=True)
     except Exception as e:
         report("apk-constructor-raises", "APK() raises on a well-formed APK with a signing block", {"exc": exc_str(e)})
         return
@@ -261,7 +280,12 @@ def base_apk(rng):
         entries.append(apkw.Entry("classes.dex", rng.randbytes(rng.choice([0, 10, 300])), rng.choice([apkw.STORED, apkw.DEFLATED])))
     if rng.random() < 0.3:
         entries.insert(0, apkw.Entry("res/x.bin", rng.randbytes(20), apkw.STORED))
+    if rng.random() < 0.25:
+        # archive size and comment length decide where the end-of-central-directory record lies relative to the last 64 KiB of the file
+        entries.append(apkw.Entry("res/big.bin", bytes(rng.choice([1000, 5000, 20000, 40000, 70000])), rng.choice([apkw.STORED, apkw.STORED, apkw.DEFLATED])))
     comment = rng.choice([b"", b"", b"zip comment"])
+    if rng.random() < 0.2:
+        comment = b"c" * rng.choice([1000, 20000, 30000, 40000, 60000, 65535])
     return apkw.build_zip(entries, comment)
 
 
